@@ -211,7 +211,12 @@ func (f *PFile) Coq() string {
 	if f.Holder != "" {
 		msgs = append(append([]string{}, msgs...), f.Holder)
 	}
-	return fmt.Sprintf("(mkPfile %s %s %s %s)", strList(f.Dir), S(f.Base), strList(msgs), strList(f.Enums))
+	var vals []string
+	for _, e := range f.Enums {
+		up := strings.ToUpper(e)
+		vals = append(vals, up+"_UNSPECIFIED", up+"_ONE")
+	}
+	return fmt.Sprintf("(mkPfile %s %s %s %s %s)", strList(f.Dir), S(f.Base), strList(msgs), strList(f.Enums), strList(vals))
 }
 
 func (b *Bundle) Coq() string {
